@@ -241,11 +241,17 @@ func cmdCheck(args []string) int {
 			fmt.Fprintf(os.Stderr, "  %s %s at %s model: %s\n", f.res.Status, name, f.res.Obl.Pos, modelSummary(f.res.Model, 12))
 		}
 	}
+	// Contract clauses that no longer fit the code (a renamed or removed local, a call that
+	// moved): they were skipped. On their own they are not a verdict about the property: what
+	// could still be generated was proved (or is reported above). They are listed, loudly, as
+	// unchecked, here and in the evidence.
+	var staleClauses []string
 	for _, fr := range runs {
 		if fr.X != nil {
 			for _, sm := range fr.X.stale {
 				fmt.Fprintf(os.Stderr, "stale contract clause: %s\n", sm)
-				undecided++
+				fmt.Printf("UNCHECKED: property=%s contract clause does not fit the code any more and was skipped: %s\n", id, truncateStr(sm, 300))
+				staleClauses = append(staleClauses, sm)
 			}
 		}
 	}
@@ -422,6 +428,9 @@ func cmdCheck(args []string) int {
 		assumptions = append(assumptions, "imprecision: "+wn)
 	}
 	sort.Strings(assumptions)
+	for _, sm := range staleClauses {
+		assumptions = append(assumptions, "UNCHECKED (stale contract clause, skipped): "+truncateStr(sm, 300))
+	}
 	assumptions = append(assumptions, trusted...)
 	var kf []string
 	for _, k := range ks {
@@ -438,6 +447,7 @@ func cmdCheck(args []string) int {
 		"samples":           samples,
 		"known_findings":    kf,
 		"undecided":         undecided,
+		"stale_clauses_skipped": staleClauses,
 		"tool_errors":       toolErrors,
 		"bounded":           boundedOut,
 		"explanation":       "obligations = verification conditions generated from /repo's current source for the functions listed under 'functions' (excluding those matched by an open entry of known_findings.json, listed separately); discharged = proved unsat-negation by an SMT solver or reduced to true by the term simplifier; bounded stand-ins are listed under 'bounded' and are not counted",
